@@ -7,14 +7,15 @@
  * materialised lazily.  iv_timer_get_node is replaced (goto-instrument
  * --replace-calls) by its contract "the slot of index i is one stable cell,
  * the cells of 2j and 2j+1 are adjacent" (proved for the real radix tree in the
- * timer_get_node units): a cell pair is created the first time one of its two
- * indices is looked up, with an unconstrained timer (unconstrained 128-bit
- * key) whose back index is exact, or NULL above the population.  The
- * universally quantified invariant of the ORIGINAL state is assumed exactly
- * on the cells that exist: every instance "edge (c/2, c) is in order" whose two
- * cells are both materialised, re-evaluated after every materialisation
- * (instances of a true universal statement are true: sound; a missing
- * instance could only produce a spurious failure on the unchanged tree).
+ * timer_get_node units): only the cell pairs in the neighbourhood of the step
+ * (element, ancestors / descendants two levels away) and of the ghost position
+ * exist, each with an unconstrained timer (unconstrained 128-bit key) whose
+ * back index is exact, or NULL above the population; a lookup of any other
+ * slot is reported.  The universally quantified invariant of the ORIGINAL
+ * state is assumed exactly on the cells that exist: every instance "edge
+ * (c/2, c) is in order" whose two cells are both materialised (instances of a
+ * true universal statement are true: sound; a missing instance could only
+ * produce a spurious failure on the unchanged tree).
  *
  * Invariants (H = slot array, n = population, le = "expires not later"):
  *   ORDER      : for all c in 2..n            le(H[c/2], H[c])
@@ -60,7 +61,11 @@ struct verif_in_t {
 enum { M_ORDER, M_UP, M_DOWN };
 
 static struct iv_state	v_state;
-static struct iv_timer_	v_T[NCELL + 1];		/* v_T[NCELL]: the timer being registered */
+/* timers live in 64-byte cells so that "which timer does this pointer name" is a shift, not a division */
+static struct v_tim {
+	struct iv_timer_	t;
+	char			pad[64 - sizeof(struct iv_timer_)];
+} v_T[NCELL + 1];					/* v_T[NCELL]: the timer being registered */
 static struct v_pair {
 	int			key;		/* cells 2*key and 2*key+1 */
 	struct iv_timer_	*cur[2];	/* what the code sees */
@@ -117,35 +122,49 @@ static void v_instances(void)
 	}
 }
 
-/* find or create the pair that holds cell c */
-static int v_cell(int c)
+/* create the pair that holds cell c (before the store is sealed) */
+static int	v_sealed;
+static void v_want(int c)
 {
-	int j = v_find(c);
-	int b;
+	int j, b;
 
-	if (j >= 0)
-		return j;
-	if (v_np >= NPAIR) {
-		__CPROVER_assert(0, "[C05] one sift step looks at no more slots than the element, its parent and its children");
-		__CPROVER_assume(0);
-	}
+	if (c < 0 || c > v_n0 + 1 || v_find(c) >= 0)
+		return;
+	__CPROVER_assert(v_np < NPAIR, "materialisation budget of the harness");
 	j = v_np++;
 	v_P[j].key = c >> 1;
 	for (b = 0; b < 2; b++) {
 		int cc = 2 * v_P[j].key + b;
 
 		if (cc >= 1 && cc <= v_n0) {
-			v_T[2 * j + b].index = cc;
-			v_T[2 * j + b].expires.tv_sec = verif_in.sec[2 * j + b];
-			v_T[2 * j + b].expires.tv_nsec = verif_in.nsec[2 * j + b];
-			v_P[j].cur[b] = &v_T[2 * j + b];
+			v_T[2 * j + b].t.index = cc;
+			v_T[2 * j + b].t.expires.tv_sec = verif_in.sec[2 * j + b];
+			v_T[2 * j + b].t.expires.tv_nsec = verif_in.nsec[2 * j + b];
+			v_P[j].cur[b] = &v_T[2 * j + b].t;
 			v_P[j].oid[b] = 2 * j + b;
 		} else {
 			v_P[j].cur[b] = NULL;
 			v_P[j].oid[b] = -1;
 		}
 	}
+}
+
+/* all cells the step can reach exist now: assume the invariant's instances, once */
+static void v_seal(void)
+{
 	v_instances();
+	v_sealed = 1;
+}
+
+/* the pair that holds cell c; a lookup outside the neighbourhood of the step is reported */
+static int v_cell(int c)
+{
+	int j = v_find(c);
+
+	if (j < 0) {
+		__CPROVER_assert(0, "[C05] one sift step looks at no other slots than the element's, its parent's and its children's");
+		__CPROVER_assume(0);
+	}
 	return j;
 }
 
@@ -154,7 +173,7 @@ static int v_cell(int c)
 static int v_id(const struct iv_timer_ *t)
 {
 	__CPROVER_assert(t != NULL && __CPROVER_same_object(t, v_T), "[C05] heap slots hold registered timers");
-	return t - v_T;
+	return (const struct v_tim *)t - v_T;
 }
 
 /* ---- the callee contract of iv_timer_get_node, with the loop-head checks --- */
@@ -169,7 +188,6 @@ struct iv_timer_ **verif_get_node(struct iv_state *st, int index)
 	int q;
 
 	__CPROVER_assert(st == &v_state && index >= 1 && index <= v_n + 1, "[C05] slot lookups stay within the population (and the first free slot)");
-	q = v_cell(index);
 	v_calls++;
 	if (v_phase == PH_UP && v_calls >= 2) {
 		/* loop head of pull_up after a completed iteration */
@@ -188,6 +206,7 @@ struct iv_timer_ **verif_get_node(struct iv_state *st, int index)
 		if (v_calls >= 3)
 			__CPROVER_assume(0);
 	}
+	q = v_cell(index);
 	return &v_P[q].cur[index & 1];
 }
 
@@ -241,7 +260,7 @@ static void v_check_present(int n, struct iv_timer_ *gone)
 
 	if (s < 0)
 		return;
-	t = &v_T[s];
+	t = &v_T[s].t;
 	if (t == gone)
 		return;
 	__CPROVER_assert(t->index >= 1 && t->index <= n, "[C05] every other registered timer is still in the store (independence)");
@@ -272,9 +291,10 @@ static void v_build(int mode)
 	v_calls = 0;
 	v_n = n;
 	__CPROVER_assume(verif_in.k >= 0 && verif_in.k <= n + 1);
-	v_cell(verif_in.k);
-	v_cell(verif_in.k >> 1);
-	v_cell(verif_in.k >> 2);
+	v_sealed = 0;
+	v_want(verif_in.k);
+	v_want(verif_in.k >> 1);
+	v_want(verif_in.k >> 2);
 }
 
 /* ------------------------------------------------------------------ */
@@ -286,6 +306,10 @@ void h_sift_up_step(void)
 	v_build(M_UP);
 	n = verif_in.n;
 	__CPROVER_assume(verif_in.x >= 1 && verif_in.x <= n);
+	v_want(verif_in.x);
+	v_want(verif_in.x >> 1);
+	v_want(verif_in.x >> 2);
+	v_seal();
 	i = &CUR(verif_in.x);
 	v_x = *i;
 	v_prev_x = verif_in.x;
@@ -313,6 +337,16 @@ void h_sift_down_step(void)
 	v_build(M_DOWN);
 	n = verif_in.n;
 	__CPROVER_assume(verif_in.x >= 1 && verif_in.x <= n);
+	v_want(verif_in.x);
+	v_want(verif_in.x >> 1);
+	if (verif_in.x <= n / 2) {
+		v_want(2 * verif_in.x);			/* children */
+		if (2 * verif_in.x <= n / 2)
+			v_want(4 * verif_in.x);		/* children of the left child */
+		if (2 * verif_in.x + 1 <= n / 2)
+			v_want(4 * verif_in.x + 2);	/* children of the right child */
+	}
+	v_seal();
 	i = &CUR(verif_in.x);
 	v_x = *i;
 	v_prev_x = verif_in.x;
@@ -361,11 +395,13 @@ void verif_remove_level_nop(struct iv_state *st)
 void h_sift_reg_base(void)
 {
 	int n;
-	struct iv_timer_ *t = &v_T[NCELL];
+	struct iv_timer_ *t = &v_T[NCELL].t;
 
 	v_build(M_ORDER);
 	n = verif_in.n;
 	__CPROVER_assume(n < (1 << 30) - 1);
+	v_want(n + 1);
+	v_seal();
 	t->index = -1;
 	t->expires.tv_sec = verif_in.sec[NCELL];
 	t->expires.tv_nsec = verif_in.nsec[NCELL];
@@ -393,6 +429,10 @@ void h_sift_unreg_base(void)
 	n = verif_in.n;
 	x = verif_in.x;
 	__CPROVER_assume(n >= 1 && x >= 1 && x <= n && verif_in.numobjs >= 1);
+	v_want(x);
+	v_want(n);
+	v_want(x >> 1);
+	v_seal();
 	t = CUR(x);
 	g_moved = CUR(n);
 	v_dn = 0;
